@@ -617,6 +617,10 @@ class DimFlow:
         if nm == "_update_defect":
             self.unify(self.dim(args[0], st), {"B": Fraction(1)}, "_update_defect(%s): a defect norm has the dimension of the right-hand side" % render(args[0])[:40])
             return {}
+        if nm in ("is_converged", "is_diverged") and len(args) == 0 and (obj is None or obj.get("k") == "This"):
+            # the argument-less overloads test the cached _def_cur
+            self.unify(self.read_obj("this._def_cur", st), {"B": Fraction(1)}, "%s(): the cached defect norm _def_cur has the dimension of the right-hand side" % nm)
+            return {}
         if nm in ("is_converged", "is_diverged") and len(args) == 1:
             self.unify(self.dim(args[0], st), {"B": Fraction(1)}, "%s(%s): a defect norm has the dimension of the right-hand side" % (nm, render(args[0])[:40]))
             return {}
